@@ -147,15 +147,21 @@ class Interp:
         raise OutsideSubset(f"unresolved name {name} in {module.relpath}")
 
     def ext(self, dotted):
+        r = self.spec.ext_value(self, dotted)
+        if r is not None:
+            return r
         py = None
         if dotted.startswith("builtins."):
             py = getattr(builtins, dotted.split(".", 1)[1], None)
         if isinstance(py, type) and issubclass(py, BaseException):
             return O.builtin_class(py)
-        if py in (object, dict, list, set, str, int, float, bool, tuple, type, frozenset):
+        if isinstance(py, type):
             return O.builtin_class(py)
-        if dotted in ("collections.deque",):
-            return O.HExt(dotted)
+        if dotted.startswith("ast."):
+            import ast as _ast
+            pa = getattr(_ast, dotted.split(".", 1)[1], None)
+            if isinstance(pa, type):
+                return O.builtin_class(pa)
         return O.HExt(dotted)
 
     def class_of_node(self, module, node):
@@ -223,7 +229,7 @@ class Interp:
     # ==========================================================================================
     TAGS = ("none", "bool", "int", "str", "real", "ref", "obj", "cls", "fn", "tup")
 
-    def tag(self, v):
+    def tag(self, v, cheap=False):
         """Constructor of a V term if it can be determined (syntactically, else by the solver)."""
         if not is_v(v):
             return "host"
@@ -232,9 +238,17 @@ class Interp:
             nm = s.decl().name()
             if nm in self.TAGS and s.decl().range() == V and s.decl().kind() == z3.Z3_OP_DT_CONSTRUCTOR:
                 return nm
-        for t in self.TAGS:
-            rec = getattr(V, "is_" + t)
-            if self.st.valid(rec(v)):
+        t = self.st.tags.get(v.get_id()) or self.st.tags.get(s.get_id())
+        if t:
+            return t
+        if cheap:
+            return None
+        mv = self.st.model_value(v)
+        if mv is not None and z3.is_app(mv) and mv.decl().name() in self.TAGS:
+            t = mv.decl().name()
+            if self.st.valid(getattr(V, "is_" + t)(v)):
+                self.st.tags[v.get_id()] = t
+                self.st._tagkeep.append(v)
                 return t
         return None
 
@@ -243,9 +257,9 @@ class Interp:
         k = z3.simplify(z3.Select(self.st.h.kind, V.id(v)))
         if z3.is_int_value(k):
             return k.as_long()
-        for c in (K_DICT, K_INST, K_LIST, K_SET):
-            if self.st.valid(z3.Select(self.st.h.kind, V.id(v)) == c):
-                return c
+        mv = self.st.model_value(z3.Select(self.st.h.kind, V.id(v)))
+        if mv is not None and z3.is_int_value(mv) and self.st.valid(z3.Select(self.st.h.kind, V.id(v)) == mv):
+            return mv.as_long()
         return None
 
     def inst_class(self, v):
@@ -253,15 +267,9 @@ class Interp:
         if z3.is_int_value(c):
             return O.class_by_id(c.as_long())
         # ask the solver for a candidate and confirm
-        s = z3.Solver()
-        s.set("timeout", 3000)
-        for p in self.st.full_pc():
-            s.add(p)
-        if s.check() == z3.sat:
-            m = s.model()
-            cand = m.eval(z3.Select(self.st.h.cls, V.id(v)), model_completion=True)
-            if z3.is_int_value(cand) and self.st.valid(z3.Select(self.st.h.cls, V.id(v)) == cand):
-                return O.class_by_id(cand.as_long())
+        cand = self.st.model_value(z3.Select(self.st.h.cls, V.id(v)))
+        if cand is not None and z3.is_int_value(cand) and self.st.valid(z3.Select(self.st.h.cls, V.id(v)) == cand):
+            return O.class_by_id(cand.as_long())
         return None
 
     def truthy(self, v):
@@ -289,7 +297,7 @@ class Interp:
         rid = V.id(v)
         kd = z3.Select(h.kind, rid)
         ref_truth = z3.If(kd == K_DICT, z3.Select(h.dlen, rid) > 0,
-                          z3.If(kd == K_LIST, z3.Length(z3.Select(h.lseq, rid)) > 0,
+                          z3.If(kd == K_LIST, z3.Select(h.llen, rid) > 0,
                                 z3.If(kd == K_SET, z3.Select(h.slen, rid) > 0, z3.BoolVal(True))))
         if t == "ref":
             self._card_axioms(v)
@@ -337,7 +345,7 @@ class Interp:
         content = z3.If(z3.And(ka == K_DICT, kb == K_DICT),
                         z3.And(z3.Select(h.ddom, ia) == z3.Select(h.ddom, ib),
                                self._dict_vals_eq(ia, ib)),
-                  z3.If(z3.And(ka == K_LIST, kb == K_LIST), z3.Select(h.lseq, ia) == z3.Select(h.lseq, ib),
+                  z3.If(z3.And(ka == K_LIST, kb == K_LIST), self.st.list_sq(a).eq(self.st.list_sq(b)),
                   z3.If(z3.And(ka == K_SET, kb == K_SET), z3.Select(h.sdom, ia) == z3.Select(h.sdom, ib),
                         ia == ib)))
         return z3.If(z3.And(V.is_ref(a), V.is_ref(b)), z3.Or(a == b, content), a == b)
@@ -537,8 +545,8 @@ class Interp:
         st = self.st
         pc0 = snap[0]
         n0 = len(pc0)
-        (pca, ha, na, ga, gma, _, sca, cla, ra, eva) = a
-        (pcb, hb, nb, gb, gmb, _, scb, clb, rb, evb) = b
+        (pca, ha, na, ga, gma, _, sca, cla, ra, eva, tga, tra) = a
+        (pcb, hb, nb, gb, gmb, _, scb, clb, rb, evb, tgb, trb) = b
         if eva != evb:
             return False
         # variables
@@ -597,8 +605,10 @@ class Interp:
         st.gmemo = gm
         st.symcls = list({t.get_id(): t for t in sca + scb}.values())
         st.classes = cla | clb
+        st.targets = tra | trb
         st.reads = ra | rb
         st.events = list(eva)
+        st.tags = {k: v for k, v in tga.items() if tgb.get(k) == v}
         for e, md in merged_envs:
             e.vars = md
         return True
@@ -662,8 +672,9 @@ class Interp:
     def _for_inductive(self, s, env, seq, spec):
         st = self.st
         label = spec.label or f"{env.func.qual if env.func else '?'}/loop@{s.lineno}"
-        n = z3.Length(seq)
-        entry = {"vars": {k: v for e in reversed(list(env.chain())) for k, v in e.vars.items()}, "h": st.h.copy()}
+        n = seq.n
+        entry = {"vars": {k: v for e in reversed(list(env.chain())) for k, v in e.vars.items()}, "h": st.h.copy(),
+                 "nalloc": st.nalloc}
         # 1. invariant holds initially
         ctx0 = LoopCtx(self, st, env, seq, z3.IntVal(0), entry)
         for nm, f in _inv_list(spec.inv):
@@ -681,8 +692,8 @@ class Interp:
                 raise OutsideSubset(f"loop modifies host-valued variable {nm}")
         if spec.modifies_heap is not False:
             old_h = st.h
-            st.h = _havoc_heap(st.h, f"L{s.lineno}")
-            st.nalloc += 1000   # fresh references of the havocked iterations never collide with later ones
+            st.nalloc += 1000
+            st.h = _havoc_heap(st.h, f"L{s.lineno}", st.nalloc)   # fresh references of the havocked iterations never collide with later ones
             if callable(spec.modifies_heap):
                 hc = LoopCtx(self, st, env, seq, None, entry)
                 st.assume(spec.modifies_heap(hc))
@@ -695,7 +706,7 @@ class Interp:
             ctx = LoopCtx(self, st, env, seq, i, entry)
             for nm, f in _inv_list(spec.inv):
                 st.assume(f(ctx))
-            x = st.wf_read(Nth(seq, i))
+            x = st.wf_read(seq.at(i))
             self.assign_target(s.target, x, env)
             try:
                 self.exec_block(s.body, env)
@@ -706,6 +717,8 @@ class Interp:
             ctx1 = LoopCtx(self, st, env, seq, i + 1, entry)
             for nm, f in _inv_list(spec.inv):
                 self.spec.oblige(self, f"{label}/step/{nm}", f(ctx1))
+            if spec.modifies_heap is False:
+                self.spec.oblige(self, f"{label}/step/heap-unchanged", frame_eq(entry["h"], st.h, entry["nalloc"]))
             raise PathEnd()
         else:
             st.assume(i == n)
@@ -758,7 +771,6 @@ class Interp:
             c = self.lower(c)
             if not isinstance(c, O.ClassInfo):
                 raise OutsideSubset("except clause with non-class")
-            self.st.mention(c)
             cond = z3.Or(cond, self.cid_issub(exc.cid, c))
         return self.st.decide(cond, "except")
 
@@ -770,7 +782,7 @@ class Interp:
                 return z3.BoolVal(a.is_sub(ci))
         if not any(s.eq(t) for t in self.st.symcls):
             self.st.symcls.append(s)
-        self.st.mention(ci)
+        self.st.mention(ci, target=True)
         return issub(s, ci.cid)
 
     def x_Raise(self, s, env):
@@ -849,14 +861,13 @@ class Interp:
         return vtup([self.lift(self.ev(x, env)) for x in e.elts])
 
     def e_List(self, e, env):
-        parts = []
+        sq = Sq(EMPTY_ARR, 0)
         for x in e.elts:
             if isinstance(x, ast.Starred):
-                parts.append(self.models.iterate_seq(self, self.ev(x.value, env)))
+                sq = sq.concat(self.models.iterate_seq(self, self.ev(x.value, env)))
             else:
-                parts.append(z3.Unit(self.lift(self.ev(x, env))))
-        seq = z3.Empty(VSeq) if not parts else parts[0] if len(parts) == 1 else z3.Concat(*parts)
-        return self.st.new_list(seq)
+                sq = sq.append(self.lift(self.ev(x, env)))
+        return self.st.new_list(sq)
 
     def e_Set(self, e, env):
         r = self.st.new_set()
@@ -1168,7 +1179,7 @@ class Interp:
         if ov is not None:
             return ov
         rid = V.id(v)
-        has = z3.Select(st.h.hasf(name), rid)
+        has = st.has_term(name, rid)
         val = z3.Select(st.h.field(name), rid)
         if st.decide(has, f"hasattr:{name}"):
             return st.wf_read(val)
@@ -1439,9 +1450,40 @@ def _owns(fnode, target):
     return False
 
 
-def _havoc_heap(h, tag):
+def heap_eq(h1, h2):
+    conj = []
+    for (n1, a), (n2, b) in zip(h1.components(), h2.components()):
+        if n1 != n2:
+            return z3.BoolVal(False)
+        if not a.eq(b):
+            conj.append(a == b)
+    if len(h1.components()) != len(h2.components()):
+        names = set(h1.fld) ^ set(h2.fld)
+        for n in names:
+            h1.field(n), h2.field(n)
+        return heap_eq(h1, h2)
+    return z3.And(conj) if conj else z3.BoolVal(True)
+
+
+def frame_eq(h1, h2, n0):
+    """every object that existed when nalloc was n0 (id <= n0) has the same contents in h1 and h2"""
+    r = z3.Int("r!frame")
+    names = set(h1.fld) | set(h2.fld)
+    for n in names:
+        h1.field(n), h2.field(n)
+    conj = []
+    for (n1, a), (n2, b) in zip(h1.components(), h2.components()):
+        if not a.eq(b):
+            conj.append(z3.Select(a, r) == z3.Select(b, r))
+    if not conj:
+        return z3.BoolVal(True)
+    return z3.ForAll([r], z3.Implies(r <= n0, z3.And(conj)))
+
+
+def _havoc_heap(h, tag, floor=0):
     n = fresh("hv", I)
-    nh = Heap(f"{tag}!{n}")
+    nh = Heap(f"{tag}!{n}", floor)
+    nh.axioms = list(h.axioms)
     for name in list(h.fld):
         nh.field(name)
     return nh
